@@ -24,6 +24,7 @@ import (
 	"sort"
 	"strconv"
 	"strings"
+	"sync"
 	"time"
 
 	"github.com/itchio/lake/pools/fspool"
@@ -897,22 +898,22 @@ func (c *Ctx) c02Reps() int {
 	return 8
 }
 
-func runC02Case(c *Ctx, idx int, sp c02Spec) error {
+func runC02Case(c *Ctx, idx int, sp c02Spec) (out []*lib.Case, err error) {
 	base := filepath.Join(c.Tmp, fmt.Sprintf("c02-%d", idx))
 	defer removeAll(base)
 	oldDir, newDir := filepath.Join(base, "old"), filepath.Join(base, "new")
 	work, stage, fresh := filepath.Join(base, "work"), filepath.Join(base, "stage"), filepath.Join(base, "fresh")
 	if err := sp.old.WriteTo(oldDir); err != nil {
-		return err
+		return nil, err
 	}
 	if err := sp.nw.WriteTo(newDir); err != nil {
-		return err
+		return nil, err
 	}
 	input := map[string]interface{}{"old": sp.old.Summary(), "new": sp.nw.Summary(), "relations": sp.rel, "optimized": sp.optimize, "subseed": idx}
 	cs := &lib.Case{Class: sp.class, Input: input}
 	obs := map[string]interface{}{}
 	cs.Obs = obs
-	emit := func() { c.Out.Emit(cs) }
+	emit := func() { out = append(out, cs) }
 
 	var patch []byte
 	optNote := ""
@@ -950,11 +951,11 @@ func runC02Case(c *Ctx, idx int, sp c02Spec) error {
 		cs.Class += "/nopatch"
 		obs["diff_msg"] = firstLine(msg)
 		emit()
-		return nil
+		return out, nil
 	}
 	ord, err := containerOrder(patch)
 	if err != nil {
-		return err
+		return nil, err
 	}
 
 	// fresh apply
@@ -969,7 +970,7 @@ func runC02Case(c *Ctx, idx int, sp c02Spec) error {
 	} else {
 		got, err := lib.ReadBuild(fresh)
 		if err != nil {
-			return err
+			return nil, err
 		}
 		if d := lib.DiffBuilds(got, sp.nw); d != "" {
 			oracle = append(oracle, "fresh apply differs from the new build: "+d)
@@ -986,7 +987,7 @@ func runC02Case(c *Ctx, idx int, sp c02Spec) error {
 		removeAll(work)
 		removeAll(stage)
 		if err := sp.old.WriteTo(work); err != nil {
-			return err
+			return nil, err
 		}
 		var l *c02Lists
 		if rep == 0 {
@@ -1013,7 +1014,7 @@ func runC02Case(c *Ctx, idx int, sp c02Spec) error {
 		if cl == "ok" {
 			res.tree, err = lib.ReadBuild(work)
 			if err != nil {
-				return err
+				return nil, err
 			}
 		}
 		results = append(results, res)
@@ -1028,7 +1029,7 @@ func runC02Case(c *Ctx, idx int, sp c02Spec) error {
 		cs.Oracle = strings.Join(append(oracle, "in-place patch phase "+results[0].class+": "+results[0].msg), " | ")
 		obs["inplace"] = results[0].class
 		emit()
-		return nil
+		return out, nil
 	}
 	obs["transpositions"] = lists.Transpos
 	obs["overlays"] = lists.Overlays
@@ -1099,12 +1100,12 @@ func runC02Case(c *Ctx, idx int, sp c02Spec) error {
 		for _, d := range distinct[1:] {
 			extra := &lib.Case{Class: sp.class + "/other-result", Group: "commit", Input: input, Obs: map[string]interface{}{"commit": d.class},
 				Key: "", Coq: c02CoqCase(sp.old, sp.nw, ord, lists, d)}
-			c.Out.Emit(extra)
+			out = append(out, extra)
 		}
-		return nil
+		return out, nil
 	}
 	emit()
-	return nil
+	return out, nil
 }
 
 func allData(bs ...*lib.Build) [][]byte {
@@ -1135,6 +1136,8 @@ var c02ShapeNames = []string{"swap", "chain", "chain-new", "cycle3", "fanout-kee
 func runC02(c *Ctx) error {
 	r := c.Rng.Fork()
 	idx := 0
+	var specs []c02Spec
+	add := func(sp c02Spec) error { specs = append(specs, sp); return nil }
 	// corpus: both patch variants
 	for _, f := range c02Corpus() {
 		for _, opt := range []bool{false, true} {
@@ -1142,14 +1145,14 @@ func runC02(c *Ctx) error {
 			if opt {
 				cls += "/opt"
 			}
-			if err := runC02Case(c, idx, c02Spec{class: cls, old: buildOf(f.old), nw: buildOf(f.new), rel: []string{f.name}, optimize: opt, corr: true}); err != nil {
+			if err := add(c02Spec{class: cls, old: buildOf(f.old), nw: buildOf(f.new), rel: []string{f.name}, optimize: opt, corr: true}); err != nil {
 				return err
 			}
 			idx++
 		}
 	}
 	// path-level relations, small run-structured contents (model correspondence)
-	n := c.N(90, 1200)
+	n := c.N(90, 700)
 	for i := 0; i < n; i++ {
 		cr := r.Fork()
 		shape := c02ShapeNames[i%len(c02ShapeNames)]
@@ -1170,13 +1173,13 @@ func runC02(c *Ctx) error {
 		if opt {
 			cls += "/opt"
 		}
-		if err := runC02Case(c, idx, c02Spec{class: cls, old: old, nw: nw, rel: rel, optimize: opt, corr: true}); err != nil {
+		if err := add(c02Spec{class: cls, old: old, nw: nw, rel: rel, optimize: opt, corr: true}); err != nil {
 			return err
 		}
 		idx++
 	}
 	// lib.GenPair, small files (model correspondence), with and without kind swaps
-	n = c.N(24, 400)
+	n = c.N(24, 250)
 	for i := 0; i < n; i++ {
 		cr := r.Fork()
 		ks := i%3 == 2
@@ -1189,13 +1192,13 @@ func runC02(c *Ctx) error {
 		if opt {
 			cls += "/opt"
 		}
-		if err := runC02Case(c, idx, c02Spec{class: cls, old: old, nw: nw, rel: rel, optimize: opt, corr: true}); err != nil {
+		if err := add(c02Spec{class: cls, old: old, nw: nw, rel: rel, optimize: opt, corr: true}); err != nil {
 			return err
 		}
 		idx++
 	}
 	// lib.GenPair at the real block size (oracle only), plain and optimized
-	n = c.N(12, 200)
+	n = c.N(12, 120)
 	for i := 0; i < n; i++ {
 		cr := r.Fork()
 		ks := i%4 == 3
@@ -1208,10 +1211,38 @@ func runC02(c *Ctx) error {
 		if opt {
 			cls += "/opt"
 		}
-		if err := runC02Case(c, idx, c02Spec{class: cls, old: old, nw: nw, rel: rel, optimize: opt, corr: false}); err != nil {
+		if err := add(c02Spec{class: cls, old: old, nw: nw, rel: rel, optimize: opt, corr: false}); err != nil {
 			return err
 		}
 		idx++
+	}
+	// the cases are independent (own directories, own sub-seeds): run them on a few workers and
+	// emit in generation order so that a seed reproduces the same file
+	results := make([][]*lib.Case, len(specs))
+	errs := make([]error, len(specs))
+	var wg sync.WaitGroup
+	next := make(chan int)
+	for wkr := 0; wkr < 4; wkr++ {
+		wg.Add(1)
+		go func() {
+			defer wg.Done()
+			for i := range next {
+				results[i], errs[i] = runC02Case(c, i, specs[i])
+			}
+		}()
+	}
+	for i := range specs {
+		next <- i
+	}
+	close(next)
+	wg.Wait()
+	for i := range specs {
+		if errs[i] != nil {
+			return errs[i]
+		}
+		for _, cs := range results[i] {
+			c.Out.Emit(cs)
+		}
 	}
 	return nil
 }
